@@ -489,6 +489,10 @@ def run(tier, only=None):
     t7(rep)
     t8(rep)
     t10(rep)
+    from . import variant_dispatch
+    _fg = common.extract("genc.c", all_trees=True)
+    for _d, _fl in (("gccExpr", 8), ("gccCmd", 3), ("gccRef", 8)):
+        variant_dispatch.report(rep, "T11", _fg, "genc.c", _d, _fl)
     from . import variadic
     variadic.report(rep, "T9", ["genc.c", "ccode.c"], floor=900, what="in the C generator and printer")
     try:
